@@ -1,5 +1,8 @@
 """Helpers shared by the rule modules."""
 import os
+import hashlib
+import json
+import os
 import re
 import tomllib
 
@@ -118,9 +121,14 @@ def flat(s):
     return re.sub(r"\s+", "", s)
 
 
-def flatp(s):
-    """text without whitespace and parentheses, with statement separators normalised: tolerant to formatting,
-    redundant grouping and optional semicolons"""
+class FlatText(str):
+    def __new__(cls, s, node):
+        o = str.__new__(cls, s)
+        o.node = node
+        return o
+
+
+def _flatp(s):
     s = re.sub(r"[\s()]+", "", s)
     s = re.sub(r";+", ";", s)
     s = s.replace(";}", "}")
@@ -128,11 +136,197 @@ def flatp(s):
     return s
 
 
+def flatp(s):
+    """text without whitespace and parentheses, with statement separators normalised: tolerant to formatting,
+    redundant grouping and optional semicolons. Remembers the syntax node the text came from."""
+    r = _flatp(s)
+    node = getattr(s, "node", None)
+    return FlatText(r, node) if node is not None else r
+
+
+# ---- comparison modulo behaviour-preserving rewrites (py/canon.py) -----------------------------------------------
+# A fragment is first compared literally. If that fails and the text came from a syntax node, the comparison is repeated
+# in canonical form: the fragment was located once in the tree it was confirmed on (bin/learn_fragments) and re-expressed
+# as the canonical texts of the syntax nodes it covers (rules/tables/fragments.json); those texts are then looked up among
+# the canonical texts of the nodes of the current function.
+
+CURRENT_AST = None
+_FRAG_TABLE = None
+_LEARNED = {}
+_CT_CACHE = {}
+
+
+def _frag_table():
+    global _FRAG_TABLE
+    if _FRAG_TABLE is None:
+        p = os.path.join(os.path.dirname(os.path.abspath(__file__)), "tables", "fragments.json")
+        try:
+            with open(p) as fh:
+                _FRAG_TABLE = json.load(fh)
+        except OSError:
+            _FRAG_TABLE = {}
+    return _FRAG_TABLE
+
+
+def _key(kind, frag):
+    return hashlib.sha1((kind + "\0" + frag).encode()).hexdigest()[:20]
+
+
+def _context(node):
+    import canon
+    fn = CURRENT_AST.enclosing_fn(node) if CURRENT_AST is not None else None
+    fn_node = fn.node if fn is not None else None
+    helpers = CURRENT_AST.helpers_of(fn.file) if fn is not None else {}
+    helpers = {k: v for k, v in helpers.items() if fn is None or v is not fn.node}
+    binders = canon.binders_of(fn_node, node)
+    for h in helpers.values():
+        binders |= canon.binders_of(h, h.get("body") or h)
+    return fn, helpers, binders
+
+
+def _canon_texts(node):
+    """(normalised root, oid -> canonical text, set of canonical texts) of the function part below `node`"""
+    import canon
+    ck = id(node)
+    if ck in _CT_CACHE:
+        return _CT_CACHE[ck]
+    fn, helpers, binders = _context(node)
+    root = canon.normalise(node, helpers, top=(fn is not None and node is fn.body))
+    by_oid, texts = canon.all_ctexts(root, binders)
+    whole = canon.ctext(root, binders)
+    _CT_CACHE[ck] = (root, by_oid, texts, whole)
+    return _CT_CACHE[ck]
+
+
+def _learn(kind, frag, node):
+    """re-express `frag` (which matches literally below `node`) as canonical texts of the nodes it covers"""
+    import canon
+    from astlib import walk, show as _show
+    k = _key(kind, frag)
+    root, by_oid, texts, whole = _canon_texts(node)
+    if kind == "same":
+        pats = [whole]
+    else:
+        f = _flatp(frag).rstrip(";")
+        pats = []
+        covered = []
+        for d in walk(node):
+            if d["k"].startswith("P") and d["k"] != "Path":
+                continue
+            if any(a is not None and a in covered for a in ()):
+                continue
+            fd = _flatp(_show(d))
+            if len(fd) >= 6 and fd in f:
+                # maximal: skip when an ancestor was already taken (pre-order: ancestors come first)
+                if any(_is_desc(d, c) for c in covered):
+                    continue
+                covered.append(d)
+        # match arms `pat => body` are not nodes of their own: take them when the whole arm is inside the fragment
+        from astlib import show_pat
+        arms = []
+        for m in walk(node):
+            if m["k"] != "Match" or any(_is_desc(m, c) for c in covered):
+                continue
+            for a in m["arms"]:
+                at = _flatp(show_pat(a["pat"]) + (" if " + _show(a["guard"]) if a.get("guard") else "") + " => " + _show(a["body"]))
+                if at in f and isinstance(a["body"], dict) and a["body"].get("_oid") is not None:
+                    arms.append(a)
+        taken = []
+        for a in arms:
+            t = by_oid.get("arm%s" % a["body"]["_oid"])
+            if t is not None:
+                if t not in pats:
+                    pats.append(t)
+                taken.append(a["body"])
+        for d in covered:
+            if any(_is_desc(d, b) for b in taken):
+                continue
+            t = by_oid.get(d.get("_oid"))
+            if t is None and d["k"] == "Let" and isinstance(d.get("init"), dict):
+                # the binding was inlined into its use: its initialiser lives on there
+                t = by_oid.get(d["init"].get("_oid"))
+            if t is not None and t not in pats:
+                pats.append(t)
+    entry = _LEARNED.setdefault(k, {"frag": frag[:100], "kind": kind, "alts": []})
+    if pats and pats not in entry["alts"]:
+        entry["alts"].append(pats)
+    if not pats:
+        entry["empty"] = entry.get("empty", 0) + 1
+
+
+_DESC = {}
+
+
+def _is_desc(d, anc):
+    from astlib import walk
+    key = id(anc)
+    if key not in _DESC:
+        _DESC[key] = set(id(x) for x in walk(anc))
+    return id(d) in _DESC[key]
+
+
+def _save_learned():
+    if not _LEARNED:
+        return
+    p = os.path.join(os.path.dirname(os.path.abspath(__file__)), "tables", "fragments.json")
+    try:
+        with open(p) as fh:
+            cur = json.load(fh)
+    except OSError:
+        cur = {}
+    for k, e in _LEARNED.items():
+        c = cur.setdefault(k, {"frag": e["frag"], "kind": e["kind"], "alts": []})
+        for a in e["alts"]:
+            if a not in c["alts"]:
+                c["alts"].append(a)
+    with open(p, "w") as fh:
+        json.dump(cur, fh, indent=0, sort_keys=True)
+
+
+if os.environ.get("VERIF_LEARN"):
+    import atexit
+    atexit.register(_save_learned)
+
+
+def _canon_match(kind, frag, node):
+    e = _frag_table().get(_key(kind, frag))
+    if not e or not e["alts"]:
+        return False
+    try:
+        root, by_oid, texts, whole = _canon_texts(node)
+    except Exception:
+        return False
+    for alt in e["alts"]:
+        if kind == "same":
+            if alt == [whole]:
+                return True
+        elif all(p in texts for p in alt):
+            return True
+    return False
+
+
 def has(text, frag):
-    """fragment containment modulo whitespace, parentheses and optional semicolons (both sides normalised)"""
-    f = flatp(frag).rstrip(";")
-    return f in flatp(text)
+    """fragment containment modulo whitespace, parentheses and optional semicolons (both sides normalised); if the
+    text came from a syntax node, also modulo the behaviour-preserving rewrites of py/canon.py"""
+    f = _flatp(frag).rstrip(";")
+    lit = f in _flatp(text)
+    node = getattr(text, "node", None)
+    if lit:
+        if node is not None and os.environ.get("VERIF_LEARN"):
+            _learn("has", frag, node)
+        return True
+    if node is not None:
+        return _canon_match("has", frag, node)
+    return False
 
 
 def same(text, want):
-    return flatp(text) == flatp(want)
+    lit = _flatp(text) == _flatp(want)
+    node = getattr(text, "node", None)
+    if lit:
+        if node is not None and os.environ.get("VERIF_LEARN"):
+            _learn("same", want, node)
+        return True
+    if node is not None:
+        return _canon_match("same", want, node)
+    return False
